@@ -38,8 +38,8 @@ CLAIMED = {
                 "both modes. Premise curve_facts(_x) is proved by computation on three small curves and assumed for secp256k1. Correspondence: "
                 "scripted randbelow on secp256k1 (boundary keys/digests/draws, digests solved so that s hits n/2, n/2+1, 1, n-1), OpenSSL as "
                 "independent verifier, and the Python re-targeted to the small curves over all (key, digest, nonce).",
-        "note": "PARTIAL for secp256k1: group law/primality are hypotheses (proved on small curves). sha256 arbitrary. The clause 'verifies "
-                "under compressed and uncompressed public key through sig_verify' is decided by correspondence + C14's SEC1 round trip. "
+        "note": "PARTIAL for secp256k1: group law/primality are hypotheses (proved on small curves). sha256 arbitrary. The wrapper clause (sig -> sig_verify 'OK' "
+                "under the compressed and the uncompressed key, both message modes) is proved too, under sec1_facts (square roots mod p). "
                 "Trusted: Coq kernel, extraction, harness, hashlib, OpenSSL as extra oracle.",
         "technique": "Coq proof (group theory + modular arithmetic + DER/BIP66 lemmas) + checked model/code correspondence",
         "design": "DESIGN.md section 8 / C01",
